@@ -8,7 +8,8 @@ Stage 3  K-complete enumeration on the implementation: representative formats x 
          fault-free run (open included) x applicable kinds; the C15 predicate (vlib/c15lib.judge) on every transcript.
 Stage 4  the non-seekable route (vlib/c15pipe.py): every representative file through a pipe that ends early (every header byte / chunk boundary),
          delivers short pieces, or carries a skip larger than the header cache; the check itself flags a call that does not return (alarm).
-(/dev/full is not covered; EFBIG and EBADF at close are C16's close-fault campaign.)
+(ENOSPC on /dev/full, EFBIG and unopenable names on the SECOND file of a handle -- SD2 resource fork, ALAC spool -- are stage 2d, vlib/secondfile.py;
+EFBIG and EBADF at close are C16's close-fault campaign.)
 """
 import os, re, subprocess, collections, time
 
@@ -185,6 +186,16 @@ def run(ctx):
                       % (text, nm, nm, sc))
     corr += [(nm, k, "", a, b, sc) for (nm, k, a, b, sc) in wcorr]
 
+    # ---------------- stage 2c: the staging-loop matrix (vlib/stagecamp.py): one short transfer inside the staging loop of every write kernel ----------
+    from .. import stagecamp
+    if stagecamp.run(ctx, "C15"):
+        found_input = True
+
+    # ---------------- stage 2d: genuine OS failures on the SECOND file of a handle (vlib/secondfile.py: SD2 resource fork, ALAC spool) ----------
+    from .. import secondfile
+    if secondfile.run(ctx):
+        found_input = True
+
     # ---------------- stage 3: K-complete enumeration on the implementation ----------------------------------------
     reps = [L.Rep(*r) for r in L.REPS]          # the whole list fits the quick budget (about 15 s); the tiers differ in the L1 set and timeouts
     from .. import c15extra                      # foreign-but-valid multi-block headers; the rdwr workload through sf_read_raw / sf_write_raw
@@ -279,7 +290,7 @@ def run(ctx):
                             "(iolog), then for EVERY i in 1..K every fault kind that can alter callback i (zero, short, short-by-one, seek failure, length too big/small, "
                             "tell off by 7, everything fails), persistent from i and single-shot; complete and redundancy-free. L1 formats additionally byte-for-byte against "
                             "the Lean oracle model for every post-open fault point. distinct_nontrivial = distinct (format, workload, kind) combinations + L1 (format, workload)")
-    ctx.assumptions.append("callback-level faults are injected through SF_VIRTUAL_IO; of the genuine OS conditions the truncated / short-piece pipe is exercised here (vlib/c15pipe.py), EFBIG and EBADF at sf_close in C16 (vlib/closefault.py); ENOSPC on /dev/full is not")
+    ctx.assumptions.append("callback-level faults are injected through SF_VIRTUAL_IO; of the genuine OS conditions the truncated / short-piece pipe is exercised here (vlib/c15pipe.py), ENOSPC (/dev/full) / EFBIG / unopenable names on SD2's resource fork and data file and on the ALAC spool in vlib/secondfile.py, EFBIG and EBADF at sf_close in C16 (vlib/closefault.py)")
     ctx.assumptions.append("loops outside the modelled set (block codecs, header parsers, 20 containers' header writers) are monitored by the enumeration, not proved")
 
 
@@ -292,6 +303,12 @@ def replay(ctx, path):
     if "c15-wrapper-case " in text:
         from .. import c15wrap
         return c15wrap.replay(ctx, path, text)
+    from .. import stagecamp
+    if stagecamp.is_replay(text):
+        return stagecamp.replay(ctx, path, text)
+    from .. import secondfile
+    if secondfile.is_replay(text):
+        return secondfile.replay(ctx, path, text)
     head, script = text.split("--- script", 1)
     script = script.lstrip("\n")
     cat = next((l.split()[1] for l in head.split("\n") if l.startswith("c15-category ")), None)
